@@ -80,13 +80,22 @@ thread_local! {
     pub static RAW_IMAGES: std::cell::RefCell<Vec<Option<Vec<u8>>>> = std::cell::RefCell::new(Vec::new());
 }
 
+thread_local! {
+    /// Message #i (which equals the documented default) is initialised with `UninitSendGuard::default_in_place()`.
+    pub static USE_DEFAULT: std::cell::RefCell<Vec<bool>> = std::cell::RefCell::new(Vec::new());
+}
+
+fn use_default(i: usize) -> bool {
+    USE_DEFAULT.with(|p| p.borrow().get(i).copied().unwrap_or(false))
+}
+
 fn raw_image(i: usize) -> Option<Vec<u8>> {
     RAW_IMAGES.with(|p| p.borrow().get(i).cloned().flatten())
 }
 
 /// Initialise a send guard: by the value's emplacer, or from a raw image (as_mut_bytes + assume_init).
 macro_rules! init_guard {
-    ($T:ty, $guard:expr, $i:expr, $m:expr, $route:expr) => {{
+    ($T:ty, $dflt:ident, $guard:expr, $i:expr, $m:expr, $route:expr) => {{
         let mut g = $guard;
         match raw_image($i) {
             Some(img) if img.len() <= g.as_mut_bytes().len() => {
@@ -96,6 +105,10 @@ macro_rules! init_guard {
                 }
                 Ok(unsafe { g.assume_init() })
             }
+            _ if use_default($i) => match <$T>::$dflt(g) {
+                Ok(r) => r,
+                Err(g) => g.new_in_place(ValEmplacer::<$T>::new($m, $route)),
+            },
             _ => g.new_in_place(ValEmplacer::<$T>::new($m, $route)),
         }
     }};
@@ -159,7 +172,7 @@ pub fn send_blocking<T: Shape + ?Sized>(msgs: &[Value], routes: &[u8], max_msg_l
                 Ok(g) => g,
                 Err(e) => return SendRes::AllocErr(e.kind()),
             };
-            let mut guard = match init_guard!(T, guard, i, m, &route) {
+            let mut guard = match init_guard!(T, guard_default, guard, i, m, &route) {
                 Ok(g) => g,
                 Err(e) => return SendRes::Emplace(e.into()),
             };
@@ -280,7 +293,7 @@ pub fn async_send<T: Shape + ?Sized>(msgs: &[Value], routes: &[u8], max_msg_len:
                         Ok(g) => g,
                         Err(e) => return SendRes::AllocErr(e.kind()),
                     };
-                    let mut guard = match init_guard!(T, guard, i, m, &route) {
+                    let mut guard = match init_guard!(T, async_guard_default, guard, i, m, &route) {
                         Ok(g) => g,
                         Err(e) => return SendRes::Emplace(e.into()),
                     };
@@ -444,7 +457,7 @@ pub fn async_joined<T: Shape + ?Sized>(
                         Ok(g) => g,
                         Err(e) => return SendRes::AllocErr(e.kind()),
                     };
-                    let mut guard = match init_guard!(T, guard, i, m, &route) {
+                    let mut guard = match init_guard!(T, async_guard_default, guard, i, m, &route) {
                         Ok(g) => g,
                         Err(e) => return SendRes::Emplace(e.into()),
                     };
